@@ -177,9 +177,76 @@ impl Drop for Sandbox {
 }
 
 pub fn check_case(entries: &[En], stream: bool, base: &Path, id: u64, st: &mut Stats, order: u64, part: &str) {
+    check_case_layout(entries, stream, base, id, st, order, part, 0)
+}
+
+pub const LAYOUTS: [&str; 8] = ["plain", "methods stored/deflate/bzip2/zstd by position", "data descriptors", "100 bytes of prepended data", "DOS made-by with DOS attributes", "forced ZIP64 fields and end records", "central directory in reverse order + gaps", "written by the crate's own ZipWriter"];
+
+/// How the archive is laid out (index into LAYOUTS); the entries and the expected tree stay the same.
+fn bytes_for(entries: &[En], layout: u8) -> Vec<u8> {
+    use crate::reference::zipbuild::Dd;
+    let mut spec = spec_of(entries);
+    let n = spec.entries.len();
+    match layout {
+        1 => {
+            for (i, e) in spec.entries.iter_mut().enumerate() {
+                if !e.content.is_empty() {
+                    e.method = [8u16, 12, 93, 0][i % 4];
+                }
+            }
+        }
+        2 => {
+            for (i, e) in spec.entries.iter_mut().enumerate() {
+                e.dd = if i % 2 == 0 { Dd::Sig32 } else { Dd::NoSig32 };
+            }
+        }
+        3 => spec.prefix = vec![0x5a; 100],
+        4 => {
+            for (e, en) in spec.entries.iter_mut().zip(entries) {
+                e.made_by = 20;
+                e.ext_attr = if en.kind == 1 { 0x10 } else { 0x20 };
+            }
+        }
+        5 => {
+            for (i, e) in spec.entries.iter_mut().enumerate() {
+                e.zip64_central = [7u8, 1, 4, 3][i % 4];
+                e.zip64_local = true;
+            }
+            spec.force_zip64_eocd = true;
+        }
+        6 => {
+            spec.cd_order = Some((0..n).rev().collect());
+            spec.gap_before_cd = 7;
+            for e in spec.entries.iter_mut().skip(1) {
+                e.gap_before = 3;
+            }
+        }
+        7 => {
+            use crate::zipapi::*;
+            let mut calls = vec![];
+            for e in entries {
+                let opts = FOpts { perm: e.perm, ..FOpts::m(if e.content.len() > 3 { 8 } else { 0 }) };
+                match e.kind {
+                    1 => calls.push(Call::AddDir { name: e.name.clone(), opts }),
+                    2 => calls.push(Call::AddSymlink { name: e.name.clone(), target: String::from_utf8_lossy(&e.content).into_owned(), opts }),
+                    _ => {
+                        calls.push(Call::StartFile { name: e.name.clone(), opts });
+                        calls.push(Call::Write(e.content.clone()));
+                    }
+                }
+            }
+            calls.push(Call::Finish);
+            return exec(&calls, &[]).1;
+        }
+        _ => {}
+    }
+    build(&spec).0
+}
+
+pub fn check_case_layout(entries: &[En], stream: bool, base: &Path, id: u64, st: &mut Stats, order: u64, part: &str, layout: u8) {
     st.evals += 1;
     let ex = if stream { "ZipStreamReader::extract" } else { "ZipArchive::extract" };
-    let case = || json!({"entries": entries.iter().map(|e| json!({"name": crate::util::hex(e.name.as_bytes()), "kind": e.kind, "content": crate::util::hex(&e.content), "perm": e.perm})).collect::<Vec<_>>(), "stream": stream});
+    let case = || json!({"entries": entries.iter().map(|e| json!({"name": crate::util::hex(e.name.as_bytes()), "kind": e.kind, "content": crate::util::hex(&e.content), "perm": e.perm})).collect::<Vec<_>>(), "stream": stream, "layout": layout});
     let (sb, target) = match Sandbox::new(base, id) {
         Ok(x) => x,
         Err(e) => {
@@ -192,7 +259,9 @@ pub fn check_case(entries: &[En], stream: bool, base: &Path, id: u64, st: &mut S
         .iter()
         .map(|e| En { name: e.name.replace("{CANARY}", &sb.root.join("canary").to_string_lossy()), ..e.clone() })
         .collect();
-    let bytes = build(&spec_of(&entries)).0;
+    let bytes = bytes_for(&entries, layout);
+    // DOS attributes carry no Unix mode: the tree is compared without permission bits
+    let entries: Vec<En> = if layout == 4 { entries.into_iter().map(|e| En { perm: None, ..e }).collect() } else { entries };
     st.distinct_hash(fnv(&bytes) ^ stream as u64);
     let before = snapshot(&sb.root, Some(&target));
     let r = guard(|| {
@@ -348,7 +417,7 @@ fn replay(case: &Value, st: &mut Stats) {
         .unwrap_or_default();
     let base = crate::foreign::scratch_root().join(format!("zipmc-{}-c07r", std::process::id()));
     let _ = std::fs::create_dir_all(&base);
-    check_case(&entries, case["stream"].as_bool().unwrap_or(false), &base, 0, st, 0, "replay");
+    check_case_layout(&entries, case["stream"].as_bool().unwrap_or(false), &base, 0, st, 0, "replay", case["layout"].as_u64().unwrap_or(0) as u8);
     let _ = std::fs::remove_dir_all(&base);
 }
 
@@ -367,7 +436,7 @@ pub fn run(args: &Args) -> i32 {
     let shapes = name_shapes();
     ctx.rule = format!(
         "E-PROD with a real file system (tmpfs sandbox per case: canary/, sibling objects and same-named decoys around a target four levels deep). One-entry archives: {} names (every sequence of 1..3 components over {{a, b, ., .., empty}} with/without leading and trailing '/', absolute names aimed at the canary, climbing names, backslash, NUL, drive/UNC-like, 40-level nesting) \
-         x {{file, directory-typed, symlink-typed}} x content {{empty, 5 bytes}}; every 12-bit mode 0..=0o7777 on a file, 0o700..=0o777 and all special-bit combinations on a directory; two-entry archives over a {}-name alphabet squared x kind pairs (duplicates, file/directory conflicts, implied parents); three-entry archives over 8 names cubed. Both ZipArchive::extract and ZipStreamReader::extract. \
+         x {{file, directory-typed, symlink-typed}} x content {{empty, 5 bytes}}; every 12-bit mode 0..=0o7777 on a file, 0o700..=0o777 and all special-bit combinations on a directory; two-entry archives over a {}-name alphabet squared x kind pairs (duplicates, file/directory conflicts, implied parents); three-entry archives over 8 names cubed; one five-entry tree (70 001-byte, 300-byte, 5-byte and empty files, explicit and implied directories) in all 120 entry orders x 8 archive layouts (plain, every method, data descriptors, prepended data, DOS made-by, forced ZIP64, reversed directory with gaps, written by the crate's own writer). Both ZipArchive::extract and ZipStreamReader::extract. \
          Oracle: (1) a recursive listing (type, size, mode, content hash) of everything in the sandbox outside the target is unchanged; (2) an unsafe name (lexical model) makes the call fail; (3) safe, mutually consistent archives extract successfully to exactly the model tree with byte-identical contents and the recorded permission bits. distinct_nontrivial = distinct (archive, extractor) pairs (hash set).",
         shapes.len(),
         if thorough { 40 } else { 24 }
@@ -444,6 +513,43 @@ pub fn run(args: &Args) -> i32 {
         check_case(&e, stream, base_r, (3 << 40) + t, st, (3 << 40) + t, "three-entries");
     });
     ctx.stats.merge(s);
+    // one five-entry tree (70 001-byte and empty files, explicit and implied directories) in all 120 entry orders x 8 archive layouts
+    let big = crate::zipapi::content_class(4, args.seed);
+    let tree: Vec<En> = vec![
+        En { name: "top.txt".into(), kind: 0, content: b"12345".to_vec(), perm: Some(0o644) },
+        En { name: "dir/".into(), kind: 1, content: vec![], perm: Some(0o755) },
+        En { name: "dir/big.bin".into(), kind: 0, content: big, perm: Some(0o600) },
+        En { name: "dir/sub/deep/empty".into(), kind: 0, content: vec![], perm: Some(0o640) },
+        En { name: "other/implied/x".into(), kind: 0, content: crate::zipapi::content_class(3, args.seed), perm: Some(0o444) },
+    ];
+    let mut perms: Vec<Vec<usize>> = vec![];
+    fn permute(cur: &mut Vec<usize>, n: usize, out: &mut Vec<Vec<usize>>) {
+        if cur.len() == n {
+            out.push(cur.clone());
+            return;
+        }
+        for i in 0..n {
+            if !cur.contains(&i) {
+                cur.push(i);
+                permute(cur, n, out);
+                cur.pop();
+            }
+        }
+    }
+    permute(&mut vec![], tree.len(), &mut perms);
+    let (tree_r, perms_r) = (&tree, &perms);
+    let s = par_for(perms.len() as u64 * 8 * 2, 4, |t, st| {
+        let stream = t % 2 == 1;
+        let layout = ((t / 2) % 8) as u8;
+        // data descriptors, prepended data and a reordered / gapped directory are not streamable by construction
+        if stream && matches!(layout, 2 | 3 | 6) {
+            return;
+        }
+        let es: Vec<En> = perms_r[(t / 16) as usize].iter().map(|i| tree_r[*i].clone()).collect();
+        check_case_layout(&es, stream, base_r, (4 << 40) + t, st, (4 << 40) + t, "layouts", layout);
+    });
+    ctx.stats.merge(s);
+    ctx.bound("layouts", json!(LAYOUTS));
     let _ = std::fs::remove_dir_all(&base);
     ctx.stats.states = ctx.stats.distinct.len() as u64;
     ctx.stats.transitions = ctx.stats.evals;
